@@ -333,11 +333,12 @@ def check_cli(case):
         with open(src, "w", encoding="utf-8") as stream:
             stream.write(CT.encode_export(case["trees"]))
         args = ["transitions", src, dest, system, "--src-format", "export"]
-        if system != "inorder":
-            args += ["--transform", "negra_mark_heads"]
+        trans = (["add_topnode"] if case.get("topnode") else []) + (["negra_mark_heads"] if system != "inorder" else [])
+        if trans:
+            args += ["--transform"] + trans
         if case.get("pos"):
             args += ["--dest-opts", "pos"]
-        res = cli.run_sub(args)
+        res = (cli.run_inproc if case.get("inproc") else cli.run_sub)(args)
         if res.code != 0:
             raise violation(prefix + "/exit-status", "exit %d: %s" % (res.code, res.err[-500:]))
         with open(dest, encoding="utf-8") as stream:
@@ -348,6 +349,8 @@ def check_cli(case):
         raise violation(prefix + "/not-one-line-per-tree", "%d lines for %d trees" % (len(lines) - 1, len(case["trees"])))
     for tree, line in zip(case["trees"], lines):
         root = M.copy(tree["root"])
+        if case.get("topnode"):
+            root = {"l": "TOP", "e": "--", "c": [root]}      # a transformation that returns a new root
         if system != "inorder":
             for node in M.constituents(root):
                 kids = M.kids(node)
@@ -413,7 +416,7 @@ def cli_case(draw):
     tree = S.tree_model(max_tokens=7, disc=0.8 if system == "gap" else 0.0, max_arity=arity, max_root=(None if arity > 2 else 2),
                         words=st.sampled_from(["a", "b", "Haus", "x1", "ä"]), labels=st.sampled_from(["S", "NP", "VP"]),
                         pos=st.sampled_from(["NN", "VB", "ART"]), edges=st.sampled_from(["HD", "NK", "SB", "--"]))
-    return {"system": system, "trees": draw(S.corpus(tree, 1, 4)), "pos": draw(st.booleans())}
+    return {"system": system, "trees": draw(S.corpus(tree, 1, 4)), "pos": draw(st.booleans()), "topnode": draw(st.integers(0, 2)) == 0}
 
 
 def gen_cli(ctx):
@@ -429,5 +432,19 @@ def gen_cli(ctx):
             smaller=lambda c: [dict(c, trees=c["trees"][:i] + c["trees"][i + 1:]) for i in range(len(c["trees"])) if len(c["trees"]) > 1])
 
 
+def gen_cli_inproc(ctx):
+    """the same command line through runpy in this process: more cases, each after the earlier ones (other systems,
+    output options, transformations) in one interpreter"""
+    quick = ctx.tier == "quick"
+
+    def body(case):
+        check_cli(case)
+        unary = any(len(n["c"]) == 1 for t in case["trees"] for n in M.constituents(t["root"]))
+        ctx.count(key=case, nontrivial=unary or case["system"] == "gap", classes=["cli-inproc:" + case["system"], "cli-inproc:pos" if case["pos"] else "cli-inproc:words"])
+    ctx.hyp(cli_case().map(lambda c: dict(c, inproc=True)), body, max_examples=80 if quick else 800, shrink=False,
+            smaller=lambda c: [dict(c, trees=c["trees"][:i] + c["trees"][i + 1:]) for i in range(len(c["trees"])) if len(c["trees"]) > 1])
+
+
 UNITS = [Unit("api", gen_api, check_api, shards=(4, 16)),
-         Unit("cli", gen_cli, check_cli, shards=(4, 8))]
+         Unit("cli", gen_cli, check_cli, shards=(4, 8)),
+         Unit("cli_inproc", gen_cli_inproc, check_cli, shards=(4, 8))]
